@@ -362,7 +362,12 @@ func (e *Eval) evalFunc(fn *ssa.Function, args []AV, bindings []AV, st State, de
 			if nested[b] || len(e.activeLoops) > 0 {
 				// (a loop in a function called from inside a loop is nested too: the iteration
 				// number the symbolic values refer to would be ambiguous)
-				e.event("P5", Undecided, b.Instrs[0], "nested loops in %s are outside the summarised shapes", fn.Name())
+				if structurallyCounting(b, body) {
+					// its results are unknown (below), but it is a counting loop: it ends
+					e.event("P5", Discharged, b.Instrs[0], "loop in %s (nested, not summarised): a counter stepping towards a bound that is fixed while the loop runs", fn.Name())
+				} else {
+					e.event("P5", Undecided, b.Instrs[0], "nested loops in %s are outside the summarised shapes", fn.Name())
+				}
 				// everything becomes unknown: all objects and all loop-carried values are ⊤; the
 				// blocks are then processed plainly, without back edges
 				for o := range in {
@@ -441,7 +446,7 @@ func (e *Eval) joinPreds(fr *frame, b *ssa.BasicBlock, within map[*ssa.BasicBloc
 			cur = s.clone()
 			any = true
 		} else {
-			cur = joinStates(cur, s)
+			cur = e.joinStatesE(cur, s)
 		}
 	}
 	// `if c { sb.WriteString(x) }`: the two incoming builder contents differ by a suffix written
@@ -494,6 +499,59 @@ func (e *Eval) joinPreds(fr *frame, b *ssa.BasicBlock, within map[*ssa.BasicBloc
 		}
 	}
 	return cur, any
+}
+
+// joinStatesE joins two states and keeps one correlation the plain join loses: a cell that
+// holds the error of call s on the side where s is known to have failed, and something else
+// on the side where s is known to have succeeded (`if err == nil { err = cerr }`), holds
+// "the error of s if it failed, otherwise that something else".
+func (e *Eval) joinStatesE(a, b State) State {
+	out := joinStates(a, b)
+	for o, ca := range a {
+		cb, ok := b[o]
+		if !ok || ca.String() == cb.String() {
+			continue
+		}
+		cellA, okA := ca.(CellC)
+		cellB, okB := cb.(CellC)
+		if !okA || !okB {
+			continue
+		}
+		try := func(x, y CellC, sx, sy State) bool {
+			ex, ok := x.V.(ErrV)
+			if !ok || ex.Kind != ekFrom || ex.Site == nil {
+				return false
+			}
+			ey, ok := y.V.(ErrV)
+			if !ok {
+				return false
+			}
+			so := e.errObj[ex.Site]
+			if so == nil {
+				return false
+			}
+			known := func(s State) (bool, bool) {
+				c, ok := s[so].(CellC)
+				if !ok {
+					return false, false
+				}
+				bv, ok := c.V.(BoolV)
+				return bv.Val, ok && bv.Known
+			}
+			vx, kx := known(sx)
+			vy, ky := known(sy)
+			if !kx || !ky || vx || !vy {
+				return false // need: failed on x's side, succeeded on y's side
+			}
+			els := ey
+			out[o] = CellC{ErrV{Kind: ekCond, From: ex.From, Site: ex.Site, Else: &els}}
+			return true
+		}
+		if !try(cellA, cellB, a, b) {
+			try(cellB, cellA, b, a)
+		}
+	}
+	return out
 }
 
 func joinStates(a, b State) State {
@@ -573,6 +631,73 @@ func (e *Eval) evalBlock(fr *frame, b *ssa.BasicBlock, st State) {
 	e.evalBlockIn(fr, b, st)
 }
 
+// runDefers runs the deferred calls registered on the way to x, last in first out; closures
+// of the module are evaluated, anything else makes what it was given unknown.  The result is
+// one state per combination of return paths of the closures (joined beyond eight).
+func (e *Eval) runDefers(fr *frame, x *ssa.RunDefers, st State) []State {
+	states := []State{st.clone()}
+	for i := len(fr.defers) - 1; i >= 0; i-- {
+		d := fr.defers[i]
+		// only the defers executed on every path to this point (a defer statement further down,
+		// or on another branch, has not run)
+		db := d.instr.Block()
+		if db != x.Block() && !db.Dominates(x.Block()) {
+			continue
+		}
+		cc := d.instr.Call
+		var callee *ssa.Function
+		var bindings []AV
+		if fv, ok := d.fn.(FuncV); ok {
+			callee, bindings = fv.Fn, fv.Bindings
+		} else if sc := cc.StaticCallee(); sc != nil {
+			callee = sc
+		}
+		inMod := callee != nil && len(callee.Blocks) > 0 && (callee.Pkg != nil && e.P.InModule(callee.Pkg) || callee.Parent() != nil && callee.Parent().Pkg != nil && e.P.InModule(callee.Parent().Pkg))
+		var next []State
+		for _, s := range states {
+			if inMod && !cc.IsInvoke() {
+				_, out := e.evalFunc(callee, d.args, bindings, s, fr.depth+1, false)
+				if rets := e.lastRets; len(rets) > 1 && len(rets) <= 4 {
+					for _, r := range rets {
+						next = append(next, r.st.clone())
+					}
+				} else {
+					next = append(next, out)
+				}
+				continue
+			}
+			if name := calleeNameOfCommon(cc); !(strings.HasSuffix(name, ".Close") || name == "invoke:Close") {
+				for _, a := range d.args {
+					e.escape(fr, s, a, "deferred call")
+				}
+			}
+			for _, b := range bindings {
+				e.escape(fr, s, b, "deferred closure")
+			}
+			next = append(next, s)
+		}
+		states = next
+		if len(states) > 8 {
+			out := states[0]
+			for _, o := range states[1:] {
+				out = joinStates(out, o)
+			}
+			states = []State{out}
+		}
+	}
+	return states
+}
+
+func calleeNameOfCommon(cc ssa.CallCommon) string {
+	if cc.IsInvoke() {
+		return "invoke:" + cc.Method.Name()
+	}
+	if f := cc.StaticCallee(); f != nil {
+		return f.String()
+	}
+	return "dynamic"
+}
+
 // evalBlockTopPhis evaluates the header of a loop that is not summarised: its φs are unknown.
 func (e *Eval) evalBlockTopPhis(fr *frame, b *ssa.BasicBlock, st State) {
 	top := map[ssa.Value]AV{}
@@ -601,9 +726,32 @@ func (e *Eval) evalBlockIn(fr *frame, b *ssa.BasicBlock, st State) {
 	fr.over = e.refinements(fr, b)
 	fr.cur = b
 	defer func() { fr.over, fr.cur = savedOver, savedCur }()
-	for _, in := range b.Instrs {
+	e.evalInstrs(fr, b, b.Instrs, st)
+}
+
+// evalInstrs runs the transfer functions of a suffix of b's instructions.
+func (e *Eval) evalInstrs(fr *frame, b *ssa.BasicBlock, instrs []ssa.Instruction, st State) {
+	for k, in := range instrs {
 		e.Instrs++
 		switch x := in.(type) {
+		case *ssa.RunDefers:
+			// the deferred closures may end on several paths (`if cerr := f.Close(); err == nil
+			// { err = cerr }`): what follows — reading the result cells and returning — is done
+			// once per such path, so that a returned value stays tied to the outcomes it depends on
+			states := e.runDefers(fr, x, st)
+			if len(states) == 1 {
+				for k := range st {
+					delete(st, k)
+				}
+				for k, v := range states[0] {
+					st[k] = v
+				}
+				continue
+			}
+			for _, s := range states {
+				e.evalInstrs(fr, b, instrs[k+1:], s)
+			}
+			return
 		case *ssa.Phi:
 			if v, ok := fr.topPhis[x]; ok {
 				fr.env[x] = v
@@ -1064,6 +1212,20 @@ func (e *Eval) refinements(fr *frame, b *ssa.BasicBlock) map[ssa.Value]AV {
 		apply(r.X, r.Op, r.Y)
 		apply(r.Y, flipOp(r.Op), r.X)
 	}
+	// what is learnt about one len(v) holds for every len(v) of the same slice or string value
+	for v, a := range over {
+		if base := lenOperand(v); base != nil {
+			if refs := base.Referrers(); refs != nil {
+				for _, ref := range *refs {
+					if c, ok := ref.(*ssa.Call); ok && ssa.Value(c) != v && lenOperand(c) == base {
+						if _, done := over[c]; !done {
+							over[c] = a
+						}
+					}
+				}
+			}
+		}
+	}
 	// n, err := io.ReadFull(r, buf): where err is known to be nil, n == len(buf)
 	for _, c := range e.ctrlEdges(b) {
 		cv := c.If.Cond
@@ -1116,10 +1278,98 @@ func (e *Eval) refinements(fr *frame, b *ssa.BasicBlock) map[ssa.Value]AV {
 	return over
 }
 
-// relBound: the dominating comparisons establish 0 <= idx < len(base) for these SSA values.
-func (e *Eval) relBound(fr *frame, b *ssa.BasicBlock, idx, base ssa.Value, idxAV IntV, strict bool) bool {
-	if idx == nil || base == nil || b == nil {
-		return false
+// structLowerBound reads a lower bound of an integer off the shape of its definition: a
+// constant, a value plus a constant, or a φ all of whose edges are bounded — an edge that is
+// the φ itself plus a positive constant (a counter going up) cannot lower it.  (A counter
+// cannot wrap around here: the callers also require it to be below a length.)
+func structLowerBound(v ssa.Value, seen map[ssa.Value]bool) (int64, bool) {
+	if c, ok := intConst(v); ok {
+		return c, true
+	}
+	if seen[v] || len(seen) > 16 {
+		return 0, false
+	}
+	seen[v] = true
+	defer delete(seen, v)
+	switch x := v.(type) {
+	case *ssa.BinOp:
+		if x.Op == token.ADD {
+			if k, ok := intConst(x.Y); ok {
+				if lb, ok := structLowerBound(x.X, seen); ok {
+					return addOv(lb, k)
+				}
+			}
+			if k, ok := intConst(x.X); ok {
+				if lb, ok := structLowerBound(x.Y, seen); ok {
+					return addOv(lb, k)
+				}
+			}
+		}
+	case *ssa.Phi:
+		lo := int64(math.MaxInt64)
+		n := 0
+		for _, ed := range x.Edges {
+			// ed == x + k (k > 0), possibly through one more +const
+			if step, ok := stepOf(ed, x); ok && step > 0 {
+				continue
+			}
+			if bo, ok := ed.(*ssa.BinOp); ok && bo.Op == token.ADD {
+				if k, isC := intConst(bo.Y); isC && k >= 0 {
+					if inner, ok := bo.X.(*ssa.BinOp); ok {
+						if step, ok := stepOf(inner, x); ok && step > 0 {
+							continue
+						}
+					}
+				}
+			}
+			lb, ok := structLowerBound(ed, seen)
+			if !ok {
+				return 0, false
+			}
+			if lb < lo {
+				lo = lb
+			}
+			n++
+		}
+		if n > 0 {
+			return lo, true
+		}
+	case *ssa.Convert:
+		if bt, ok := x.Type().Underlying().(*types.Basic); ok && bt.Info()&types.IsUnsigned != 0 {
+			return 0, true
+		}
+	}
+	return 0, false
+}
+
+// lenOperand: v is len(x) of a slice, string or array value x; returns x.
+func lenOperand(v ssa.Value) ssa.Value {
+	c, ok := v.(*ssa.Call)
+	if !ok {
+		return nil
+	}
+	bi, ok := c.Call.Value.(*ssa.Builtin)
+	if !ok || bi.Name() != "len" || len(c.Call.Args) != 1 {
+		return nil
+	}
+	switch c.Call.Args[0].Type().Underlying().(type) {
+	case *types.Slice, *types.Basic, *types.Array:
+		return c.Call.Args[0]
+	}
+	return nil
+}
+
+// relSlice: the dominating comparisons establish 0 <= lo <= hi <= len(x.X) for a slice
+// expression whose low bound is absent or a non-negative constant.
+func (e *Eval) relSlice(fr *frame, x *ssa.Slice, lo, hi IntV) bool {
+	base := x.X
+	lc := int64(0)
+	if x.Low != nil {
+		c, ok := intConst(x.Low)
+		if !ok || c < 0 {
+			return false
+		}
+		lc = c
 	}
 	isLenOfBase := func(v ssa.Value) bool {
 		c, ok := v.(*ssa.Call)
@@ -1128,6 +1378,99 @@ func (e *Eval) relBound(fr *frame, b *ssa.BasicBlock, idx, base ssa.Value, idxAV
 		}
 		bi, ok := c.Call.Value.(*ssa.Builtin)
 		return ok && bi.Name() == "len" && len(c.Call.Args) == 1 && c.Call.Args[0] == base
+	}
+	// least length the comparisons guarantee, and whether hi (an SSA value) is known <= len
+	minLen := int64(0)
+	hiBelow := false
+	for _, r := range e.relationsAt(x.Block()) {
+		a, op, b := r.X, r.Op, r.Y
+		if isLenOfBase(b) {
+			a, b, op = b, a, flipOp(op)
+		}
+		if !isLenOfBase(a) {
+			continue
+		}
+		if k, ok := intConst(b); ok {
+			switch op {
+			case token.GTR:
+				if k+1 > minLen {
+					minLen = k + 1
+				}
+			case token.GEQ, token.EQL:
+				if k > minLen {
+					minLen = k
+				}
+			}
+		}
+		if x.High != nil && b == x.High && (op == token.GEQ || op == token.GTR) {
+			hiBelow = true // len(base) >= hi
+		}
+	}
+	switch {
+	case x.High == nil:
+		return lc <= minLen
+	default:
+		if hc, ok := intConst(x.High); ok {
+			return lc <= hc && hc <= minLen
+		}
+		if !hiBelow {
+			return false
+		}
+		// lo <= hi: lo is 0, or hi's abstract lower bound is at least lo
+		if lc == 0 {
+			l, _, ok := hi.Bounds(fr.T())
+			return ok && l >= 0 || e.nonNegByRelations(x.Block(), x.High)
+		}
+		l, _, ok := hi.Bounds(fr.T())
+		return ok && l >= lc
+	}
+}
+
+// nonNegByRelations: a dominating comparison says v >= 0.
+func (e *Eval) nonNegByRelations(b *ssa.BasicBlock, v ssa.Value) bool {
+	if bt, ok := v.Type().Underlying().(*types.Basic); ok && bt.Info()&types.IsUnsigned != 0 {
+		return true
+	}
+	for _, r := range e.relationsAt(b) {
+		x, op, y := r.X, r.Op, r.Y
+		if y == v {
+			x, y, op = y, x, flipOp(op)
+		}
+		if x != v {
+			continue
+		}
+		if c, ok := intConst(y); ok && ((op == token.GEQ && c >= 0) || (op == token.GTR && c >= -1)) {
+			return true
+		}
+	}
+	return false
+}
+
+// relBound: the dominating comparisons establish 0 <= idx < len(base) for these SSA values.
+func (e *Eval) relBound(fr *frame, b *ssa.BasicBlock, idx, base ssa.Value, idxAV IntV, strict bool) bool {
+	if idx == nil || base == nil || b == nil {
+		return false
+	}
+	// values whose length is known to equal len(base): base itself and every u with a
+	// dominating `len(u) == len(base)`
+	sameLen := map[ssa.Value]bool{base: true}
+	for _, r := range e.relationsAt(b) {
+		if r.Op != token.EQL {
+			continue
+		}
+		u, w := lenOperand(r.X), lenOperand(r.Y)
+		if u != nil && w != nil {
+			if sameLen[u] {
+				sameLen[w] = true
+			}
+			if sameLen[w] {
+				sameLen[u] = true
+			}
+		}
+	}
+	isLenOfBase := func(v ssa.Value) bool {
+		u := lenOperand(v)
+		return u != nil && sameLen[u]
 	}
 	below, nonNeg := false, false
 	if bt, ok := idx.Type().Underlying().(*types.Basic); ok && bt.Info()&types.IsUnsigned != 0 {
@@ -1165,6 +1508,11 @@ func (e *Eval) relBound(fr *frame, b *ssa.BasicBlock, idx, base ssa.Value, idxAV
 		}
 	case ikBits:
 		nonNeg = true
+	}
+	if !nonNeg {
+		if lb, ok := structLowerBound(idx, map[ssa.Value]bool{}); ok && lb >= 0 {
+			nonNeg = true
+		}
 	}
 	for _, r := range e.relationsAt(b) {
 		x, op, y := r.X, r.Op, r.Y
@@ -1271,6 +1619,9 @@ func (e *Eval) constVal(c *ssa.Const) AV {
 	if c.Value == nil {
 		if isErrorType(c.Type()) {
 			return ErrV{Kind: ekNil}
+		}
+		if _, isStruct := c.Type().Underlying().(*types.Struct); isStruct {
+			return e.zeroOf(c.Type())
 		}
 		return NilV{T: c.Type().String()}
 	}
@@ -1487,35 +1838,19 @@ func (e *Eval) instr(fr *frame, in ssa.Instruction, st State) {
 		fr.defers = append(fr.defers, deferRec{instr: x, fn: e.val(fr, x.Call.Value), args: args})
 		e.event("", Discharged, x, "defer")
 	case *ssa.RunDefers:
-		// deferred calls run here, last in first out; closures of the module are evaluated,
-		// anything else makes what it was given unknown
-		for i := len(fr.defers) - 1; i >= 0; i-- {
-			d := fr.defers[i]
-			cc := d.instr.Call
-			var callee *ssa.Function
-			var bindings []AV
-			if fv, ok := d.fn.(FuncV); ok {
-				callee, bindings = fv.Fn, fv.Bindings
-			} else if sc := cc.StaticCallee(); sc != nil {
-				callee = sc
-			}
-			inMod := callee != nil && len(callee.Blocks) > 0 && (callee.Pkg != nil && e.P.InModule(callee.Pkg) || callee.Parent() != nil && callee.Parent().Pkg != nil && e.P.InModule(callee.Parent().Pkg))
-			if inMod && !cc.IsInvoke() {
-				_, out := e.evalFunc(callee, d.args, bindings, st, fr.depth+1, false)
-				for k := range st {
-					delete(st, k)
-				}
-				for k, v := range out {
-					st[k] = v
-				}
-				continue
-			}
-			for _, a := range d.args {
-				e.escape(fr, st, a, "deferred call")
-			}
-			for _, b := range bindings {
-				e.escape(fr, st, b, "deferred closure")
-			}
+		for k := range st {
+			_ = k
+		}
+		states := e.runDefers(fr, x, st)
+		out := states[0]
+		for _, o := range states[1:] {
+			out = joinStates(out, o)
+		}
+		for k := range st {
+			delete(st, k)
+		}
+		for k, v := range out {
+			st[k] = v
 		}
 	case *ssa.Go:
 		e.event("E2", Violated, x, "go statement")
@@ -1603,6 +1938,12 @@ func (e *Eval) escape(fr *frame, st State, v AV, why string) {
 		for _, y := range x {
 			e.escape(fr, st, y, why)
 		}
+	case *TokensV:
+		var in ssa.Instruction
+		if fr != nil && fr.cur != nil && len(fr.cur.Instrs) > 0 {
+			in = fr.cur.Instrs[0]
+		}
+		e.event("U", Undecided, in, "the token slice (%v) is handed to code that may reorder or overwrite it (%s): the tokens looked up afterwards may not be the tokens of the input", x, why)
 	}
 }
 
@@ -1900,6 +2241,25 @@ func (e *Eval) arith(fr *frame, x *ssa.BinOp, a, b IntV) IntV {
 			}
 			return TopInt("overflow")
 		}
+		if l1, h1, ok := a.Bounds(T); ok {
+			if l2, h2, ok := b.Bounds(T); ok && a.Kind != ikBits && b.Kind != ikBits {
+				// interval product: the extremes are among the four corner products
+				lo, hi := int64(math.MaxInt64), int64(math.MinInt64)
+				for _, pq := range [][2]int64{{l1, l2}, {l1, h2}, {h1, l2}, {h1, h2}} {
+					r, ok := mulOv(pq[0], pq[1])
+					if !ok {
+						return TopInt("product overflows")
+					}
+					if r < lo {
+						lo = r
+					}
+					if r > hi {
+						hi = r
+					}
+				}
+				return RangeInt(lo, hi)
+			}
+		}
 		return TopInt("product of non-constants")
 	case token.QUO, token.REM:
 		lo, hi, ok := b.Bounds(T)
@@ -1965,6 +2325,17 @@ func (e *Eval) arith(fr *frame, x *ssa.BinOp, a, b IntV) IntV {
 		}
 		if a.Kind == ikBits && bConst && x.Op == token.SHL {
 			return BitsInt(a.Bits.Shl(K(cb)))
+		}
+		if bConst && cb < int64(bits) && a.Kind == ikRange {
+			// an interval shifted by a constant
+			if x.Op == token.SHR {
+				return RangeInt(a.Lo>>uint(cb), a.Hi>>uint(cb))
+			}
+			l, okl := mulOv(a.Lo, int64(1)<<uint(cb))
+			h, okh := mulOv(a.Hi, int64(1)<<uint(cb))
+			if okl && okh && cb < 62 {
+				return e.fit(RangeInt(l, h), x.Type(), T)
+			}
 		}
 		return TopInt("shift of non-constant")
 	case token.AND:
@@ -2254,6 +2625,14 @@ func (e *Eval) zeroOf(t types.Type) AV {
 		}
 	case *types.Slice, *types.Map, *types.Pointer, *types.Interface, *types.Signature:
 		return NilV{T: t.String()}
+	case *types.Struct:
+		if u.NumFields() <= 64 {
+			elems := make([]AV, u.NumFields())
+			for i := range elems {
+				elems[i] = e.zeroOf(u.Field(i).Type())
+			}
+			return VecV{elems}
+		}
 	}
 	return TopV{"zero " + t.String()}
 }
@@ -2358,6 +2737,15 @@ func (e *Eval) lenOf(fr *frame, a AV, st State) IntV {
 			return ac.N
 		}
 		if vc, ok := st[v.O].(VecC); ok {
+			if len(vc.Elems) == 0 {
+				// contents unknown (⊤): the length is that of the array allocated
+				if al, ok := v.O.Site.(*ssa.Alloc); ok {
+					if at, ok := al.Type().Underlying().(*types.Pointer).Elem().Underlying().(*types.Array); ok {
+						return CInt(at.Len())
+					}
+				}
+				return RangeInt(0, math.MaxInt32)
+			}
 			return CInt(int64(len(vc.Elems)))
 		}
 	case VecV:
@@ -2535,9 +2923,15 @@ func (e *Eval) slice(fr *frame, x *ssa.Slice, st State) AV {
 			}
 		}
 	}
+	relOK := false
+	if !full && !perT && !(ok1 && ok2 && okn && l1 >= 0 && h1 <= l2 && h2 <= nl) {
+		relOK = e.relSlice(fr, x, lo, hi)
+	}
 	switch {
 	case full:
 		e.event("P2", Discharged, x, "full slice")
+	case relOK:
+		e.event("P2", Discharged, x, "slice bounds [%v:%v]: the dominating comparisons bound them by len of the same value", lo, hi)
 	case perT:
 		e.event("P2", Discharged, x, "slice bounds [%v:%v] within %v in each of the %d iterations", lo, hi, n, fr.T())
 	case !ok1 || !ok2 || !okn:
@@ -2737,6 +3131,13 @@ func (e *Eval) store(fr *frame, x *ssa.Store, st State) {
 			e.setContent(fr, st, p.O, CellC{v})
 			return
 		}
+		if vv, ok := v.(VecV); ok && p.O.Kind == okVec {
+			// a whole struct (or array) value assigned: field by field
+			if cur, ok := st[p.O].(VecC); ok && (len(cur.Elems) == len(vv.Elems) || len(cur.Elems) == 0) {
+				e.setContent(fr, st, p.O, VecC{append([]AV{}, vv.Elems...)})
+				return
+			}
+		}
 		e.setContent(fr, st, p.O, topContent(p.O, "whole-object store"))
 	case p.Elem != nil:
 		e.storeElem(fr, x, p.Elem, v, st)
@@ -2877,6 +3278,10 @@ func (e *Eval) storeElem(fr *frame, x *ssa.Store, el *ElemRef, v AV, st State) {
 		}
 	case *ListV:
 		e.event("E1", Violated, x, "store into word list %s", b.Name())
+	case *TokensV:
+		// the token slice is held as a value (token i of the split input): after a store into it
+		// that is no longer what its elements are
+		e.event("U", Undecided, x, "an element of the token slice (%v) is overwritten: the tokens looked up afterwards are not the tokens of the input", b)
 	default:
 		e.clobber(fr, st, "element store through a slice or pointer that is not resolved", okCell, okVec, okBuf, okArr)
 	}
